@@ -127,11 +127,11 @@ func ValidateProxyConfigurerForClient(c v1.ProxyConfigurer) error {
 }
 
 func validateTCPProxyConfigForClient(c *v1.TCPProxyConfig) error {
-	return nil
+	return ValidatePort(c.RemotePort, "remotePort")
 }
 
 func validateUDPProxyConfigForClient(c *v1.UDPProxyConfig) error {
-	return nil
+	return ValidatePort(c.RemotePort, "remotePort")
 }
 
 func validateTCPMuxProxyConfigForClient(c *v1.TCPMuxProxyConfig) error {
@@ -194,11 +194,11 @@ func ValidateProxyConfigurerForServer(c v1.ProxyConfigurer, s *v1.ServerConfig) 
 }
 
 func validateTCPProxyConfigForServer(c *v1.TCPProxyConfig, s *v1.ServerConfig) error {
-	return nil
+	return ValidatePort(c.RemotePort, "remotePort")
 }
 
 func validateUDPProxyConfigForServer(c *v1.UDPProxyConfig, s *v1.ServerConfig) error {
-	return nil
+	return ValidatePort(c.RemotePort, "remotePort")
 }
 
 func validateTCPMuxProxyConfigForServer(c *v1.TCPMuxProxyConfig, s *v1.ServerConfig) error {
